@@ -78,6 +78,11 @@ type FuncContract struct {
 	Trusted  bool
 	Watches  []WatchDef
 	Uses     []ast.Expr // lemma instances assumed at every return (axiom schemas instantiated by hand)
+	// proof alternatives: clauses that replace the like-named base clauses when the
+	// base proof does not go through (alt NAME: <clause>); see variants.go
+	Alts     map[string]*FuncContract
+	AltOrder []string
+	Variant  string
 }
 
 // WatchDef: a term whose model value is reported with counterexamples
@@ -172,9 +177,12 @@ func (c *Contracts) parseFile(file string) error {
 	}
 	c.Files = append(c.Files, file)
 	c.RawLines += len(ll)
-	var cur *FuncContract
+	var cur, altRestore *FuncContract
 	for i, l := range ll {
 		line := lns[i]
+		if altRestore != nil {
+			cur, altRestore = altRestore, nil
+		}
 		fail := func(f string, a ...interface{}) error {
 			return fmt.Errorf("%s:%d: %s", file, line, fmt.Sprintf(f, a...))
 		}
@@ -260,6 +268,26 @@ func (c *Contracts) parseFile(file string) error {
 			if cur == nil {
 				return fail("clause %q outside func block", word)
 			}
+			target := cur
+			altRestore = nil
+			if word == "alt" {
+				// alt NAME: <clause>  -- the clause belongs to proof alternative NAME
+				k := strings.Index(rest, ":")
+				if k < 0 {
+					return fail("alt needs 'NAME:'")
+				}
+				an := strings.TrimSpace(rest[:k])
+				if cur.Alts == nil {
+					cur.Alts = map[string]*FuncContract{}
+				}
+				if cur.Alts[an] == nil {
+					cur.Alts[an] = &FuncContract{Name: cur.Name, Loops: map[int]*LoopContract{}, File: file, Line: line, Variant: an}
+					cur.AltOrder = append(cur.AltOrder, an)
+				}
+				word, rest = splitWord(rest[k+1:])
+				cur = cur.Alts[an]
+			}
+			altRestore = target
 			switch word {
 			case "strings":
 				cur.Native = strings.TrimSpace(rest) == "native"
